@@ -41,11 +41,17 @@ func (c14) Assumptions() []string {
 // ---- generation ---------------------------------------------------------------
 
 func genReplicas(r *Rng, n int) []Replica {
-	reps := []Replica{canonicalReplica, {Mode: "reverse", Clock: 1_500_000_123, Rand: 99}}
+	hist := canonicalReplica
+	hist.History = true
+	reps := []Replica{canonicalReplica, {Mode: "reverse", Clock: 1_500_000_123, Rand: 99}, hist}
+	n++
 	for i := 2; i < n; i++ {
 		rep := Replica{Mode: "random", Seed: r.Uint64(), Clock: 1_600_000_000 + int64(r.Intn(1_000_000)), Rand: int64(r.Uint64() >> 1)}
-		if i == 2 {
+		if i == 3 {
 			rep.Mode, rep.Rot = "rotate", 1+r.Intn(3)
+		}
+		if i == 4 {
+			rep.History = true
 		}
 		reps = append(reps, rep)
 	}
@@ -184,6 +190,9 @@ func execC14(sc *Scenario, rep Replica) c14Exec {
 	}
 	simrt.SetOrder(rep.Policy())
 	simrt.SetClock(&simrt.Clock{Base: timeUnix(rep.Clock)}, rep.Rand)
+	if rep.History {
+		c14Prelude(w, sc)
+	}
 	var ex c14Exec
 	ex.multi = map[int]bool{}
 	for _, op := range sc.Ops {
@@ -201,6 +210,43 @@ func execC14(sc *Scenario, rep Replica) c14Exec {
 	simrt.SetOrder(nil)
 	simrt.SetClock(nil, 0)
 	return ex
+}
+
+// c14Prelude is the "earlier life of the process": an older version of the
+// same tree (every file's content differs) is put on the disk, loaded and
+// rendered, with failing renders and string evaluations that fail after
+// producing output; then the disk is replaced by the scenario's files. Nothing
+// is reset in between, so anything the code under test remembers across loads
+// or renders (caches, pooled buffers) can influence the scenario's own
+// operations — which the property forbids.
+func c14Prelude(w *World, sc *Scenario) {
+	var old []File
+	for _, f := range sc.Files {
+		g := f
+		if g.Kind == "" {
+			g.Data = "<!--OLDVERSION-->" + g.Data + "<i>old tail</i>"
+		}
+		old = append(old, g)
+	}
+	oldFS := BuildFS(sc.Cwd, old)
+	simrt.SetFS(oldFS)
+	pw := &World{FS: oldFS, Rec: w.Rec}
+	for _, op := range sc.Ops {
+		switch op.Kind {
+		case "newtemplate":
+			pw.RunOp(op, Budget)
+		case "string":
+			pw.RunOp(op, Budget)
+			pw.RunOp(Op{Kind: "string", Name: op.Name, Data: nil}, Budget)
+			pw.RunOp(Op{Kind: "response", Name: op.Name, Data: nil}, Budget)
+		case "evalstr":
+			pw.RunOp(op, Budget)
+		}
+	}
+	pw.RunOp(Op{Kind: "evalstr", Src: "<p>before</p>@each(x in [2, 1, 0])<li>{{ 10 / x }}</li>@end", Data: nil}, Budget)
+	pw.RunOp(Op{Kind: "evalstr", Src: "<h1>partial output</h1>{{ undefinedInPrelude }}", Data: nil}, Budget)
+	pw.RunOp(Op{Kind: "evalstr", Src: "@for(i = 0; i < 3; i++)[{{ 6 / (1 - i) }}]@end", Data: nil}, Budget)
+	simrt.SetFS(w.FS)
 }
 
 func firstDiff(a, b []Obs) int {
@@ -278,6 +324,10 @@ func (p c14) check(sc *Scenario, acc *Acc, minimise bool) *Violation {
 	// the seam-controlled replicas agree.
 	nat := Replica{Mode: "native", Clock: canonicalReplica.Clock, Rand: canonicalReplica.Rand}
 	reps := 3
+	// native-order executions are not schedule-controlled: keep them out of the
+	// event log that the determinism self-check compares
+	savedLog := EventLog
+	defer func() { EventLog = savedLog }()
 	for i := 0; i < reps; i++ {
 		ex := execC14(sc, nat)
 		acc.Evals++
@@ -348,6 +398,13 @@ func c14SingleSite(sc *Scenario, rep Replica) (string, Replica, bool) {
 }
 
 func (p c14) signature(sc *Scenario, ri, d int) string {
+	if sc.Replicas[ri].History {
+		hcand := canonicalReplica
+		hcand.History = true
+		if dd, a, b, _ := c14Diverges(sc, hcand); dd >= 0 {
+			return "earlier-history:" + sc.Family + ":" + diffField(a, b)
+		}
+	}
 	site, _, ok := c14SingleSite(sc, sc.Replicas[ri])
 	if ok {
 		return "order@" + site
@@ -367,10 +424,15 @@ func (p c14) minimise(orig *Scenario, ri, d int, v *Violation) *Violation {
 	rep := sc.Replicas[ri]
 	sc.Replicas = []Replica{sc.Replicas[0], rep}
 	sig := ""
-	// 1. explain by clock/PRNG alone, or by a single site
+	// 1. explain by earlier history alone, by clock/PRNG alone, or by a single site
 	cand := canonicalReplica
 	cand.Clock, cand.Rand = rep.Clock, rep.Rand
-	if dd, _, _, _ := c14Diverges(sc, cand); dd >= 0 {
+	hcand := canonicalReplica
+	hcand.History = true
+	if dd, a, b, _ := c14Diverges(sc, hcand); rep.History && dd >= 0 {
+		sig = "earlier-history:" + sc.Family + ":" + diffField(a, b)
+		sc.Replicas[1] = hcand
+	} else if dd, _, _, _ := c14Diverges(sc, cand); dd >= 0 {
 		sig = "clock-or-prng"
 		sc.Replicas[1] = cand
 	} else if site, r1, ok := c14SingleSite(sc, rep); ok {
